@@ -23,6 +23,28 @@ def mutations(an, local):
     return out
 
 
+def fold_const(x, depth=0):
+    """value of an integer expression built from constants with + - * (checked forms included)"""
+    x = strip(x)
+    if x.k == "const" and isinstance(x.a[0], int) and not isinstance(x.a[0], bool):
+        return x.a[0]
+    if depth > 8:
+        return None
+    if x.k == "field" and x.a[1] == "0" and x.a[0].k == "binop":
+        x = x.a[0]
+    if x.k == "binop" and x.a[0] in ("Add", "Sub", "Mul", "AddWithOverflow", "SubWithOverflow", "MulWithOverflow", "AddUnchecked", "SubUnchecked", "MulUnchecked"):
+        a, b = fold_const(x.a[1], depth + 1), fold_const(x.a[2], depth + 1)
+        if a is None or b is None:
+            return None
+        v = a + b if x.a[0].startswith("Add") else a - b if x.a[0].startswith("Sub") else a * b
+        return v if 0 <= v < 2 ** 64 else None
+    if x.k == "call" and x.a[0].name == "len" and x.a[1]:
+        c = strip(x.a[1][0])
+        if c.k == "const" and isinstance(c.a[0], bytes):
+            return len(c.a[0])
+    return None
+
+
 def range_of(e):
     """(from, to) of a Range aggregate expression; None = open end"""
     e = strip(e)
@@ -33,8 +55,9 @@ def range_of(e):
 
     def ci(x):
         x = strip(x)
-        if x.k == "const" and isinstance(x.a[0], int):
-            return x.a[0]
+        v = fold_const(x)
+        if v is not None:
+            return v
         return ("expr", x)
 
     if name == "RangeTo":
